@@ -398,6 +398,17 @@ class OrderedMultiDict(dict):
             return super_self.pop(k)
         return super_self.pop(k, default)
 
+    def popitem(self):
+        """Remove and return a ``(key, value)`` pair for the most-recently
+        inserted key, *value* being its most-recently inserted
+        value. All values under that key are removed. Raises
+        :exc:`KeyError` if the dictionary is empty.
+        """
+        if not self:
+            raise KeyError('popitem(): %s is empty' % type(self).__name__)
+        k = self.root[PREV][KEY]
+        return k, self.pop(k)
+
     def poplast(self, k=_MISSING, default=_MISSING):
         """Remove and return the most-recently inserted value under the key
         *k*, or the most-recently inserted key if *k* is not
